@@ -22,6 +22,7 @@ func init() {
 		&Rule{ID: "EN-CONSUME", Doc: "Rule.Apply inserts a head instance for every received combination; it leaves its receive loop early only with an error", Run: ruleENConsume, Min: 3},
 		&Rule{ID: "EN-UNIFY", Doc: "the join binds variables by visiting every term position of every body predicate and pairing position j of the predicate with position j of the matched fact", Run: ruleENUnify, Min: 3},
 		&Rule{ID: "EN-EXITS", Doc: "the enumeration goroutine of combine ends only for one of the enumerated reasons", Run: ruleENExits, Min: 5},
+		&Rule{ID: "EN-HEAD", Doc: "the derived fact is the rule head with every variable position (full range) replaced by its matched value; a missing binding is an error; QueryRule applies the rule to the world's facts", Run: ruleENHead, Min: 3},
 		&Rule{ID: "EN-MATCH", Doc: "Predicate.Match accepts only equal name and arity and, position by position, a variable or an Equal constant", Run: ruleENMatch, Min: 3},
 	)
 }
@@ -885,5 +886,99 @@ func ruleENExits(p *Prog, r *Reporter) {
 			}
 		}
 		r.Check(reason != "", p.instrPos(ret), name, "enumeration ends", reason, "the enumeration of fact combinations is abandoned on a path that is none of: odometer exhausted, no facts, unbound head variable, expression error, expression-only rule, consumer gone - remaining combinations (and the facts they derive) are lost")
+	}
+}
+
+func ruleENHead(p *Prog, r *Reporter) {
+	globalP = p
+	apply := p.Func("datalog", "Rule", "Apply")
+	if apply == nil {
+		r.Dunno("?", "datalog.Rule.Apply", "method", "not found")
+		return
+	}
+	name := p.FuncName(apply)
+	R := apply.Params[0].Name()
+	head := "datalog.Predicate.Clone(" + R + ".Head).Terms"
+	var rl *rangeLoop
+	for _, l := range rangeLoops(apply) {
+		if p.D(l.seq) == head {
+			rl = l
+		}
+	}
+	if rl == nil {
+		r.Bad(p.Pos(apply.Pos()), name, "head substitution loop", "no full-range loop over the terms of the cloned rule head: head variables are not (all) replaced by their matched values")
+		return
+	}
+	// the substitution store: Terms[i] = *matched[k]
+	var st *ssa.Store
+	for b := range rl.body {
+		for _, in := range b.Instrs {
+			s2, ok := in.(*ssa.Store)
+			if !ok {
+				continue
+			}
+			ia, ok := s2.Addr.(*ssa.IndexAddr)
+			if ok && ia.Index == ssa.Value(rl.incr) && p.D(ia.X) == head {
+				st = s2
+			}
+		}
+	}
+	okSub := false
+	if st != nil {
+		okSub = dependsOn(st.Val, func(x ssa.Value) bool {
+			lk, ok := x.(*ssa.Lookup)
+			return ok && strings.Contains(p.D(lk.X), "MatchedVariables") && dependsOn(lk.Index, func(y ssa.Value) bool { return rl.isElem(y) })
+		})
+	}
+	r.Check(okSub, p.instrPos(rl.header.Instrs[0]), name, "substitute matched value", "position i of the head is replaced by the value matched for the variable at position i", "the head's variable positions are not replaced by the matched value of that very variable")
+	// every way to the next position: not a variable, or substituted
+	okStep := st != nil
+	if st != nil {
+		for _, latch := range rl.latches {
+			viaStore := !reachAvoiding(rl.bodyBB, latch, blockSet{st.Block(): true}) || latch == st.Block()
+			notVar := false
+			for _, g := range guardsOnEdge(latch, rl.header) {
+				if ex, ok := g.cond.(*ssa.Extract); ok && ex.Index == 1 && !g.val {
+					if ta, isTA := ex.Tuple.(*ssa.TypeAssert); isTA && typeName(ta.AssertedType) == "Variable" {
+						notVar = true
+					}
+				}
+			}
+			if !viaStore && !notVar {
+				okStep = false
+			}
+		}
+	}
+	r.Check(okStep, p.instrPos(rl.header.Instrs[0]), name, "every variable position", "a head position is skipped only when it is not a variable", "a variable position of the head can be left unsubstituted")
+	// missing binding: error return
+	okMissing := false
+	for _, ex := range rl.exits() {
+		if ex.from == rl.header {
+			continue
+		}
+		if onlyErrorReturnsFrom(ex.to) {
+			okMissing = true
+		} else {
+			okMissing = false
+			break
+		}
+	}
+	r.Check(okMissing, p.instrPos(rl.header.Instrs[0]), name, "unbound head variable", "a head variable without a binding ends Apply with an error", "a head variable without a binding does not end Apply with an error")
+	// QueryRule
+	if q := p.Func("datalog", "World", "QueryRule"); q != nil {
+		ok := false
+		for _, c := range callsIn(q) {
+			if isCallTo(c.Common(), "datalog.Rule.Apply") {
+				a := c.Common().Args
+				if a[0] == ssa.Value(q.Params[1]) && p.D(a[1]) == q.Params[0].Name()+".facts" && a[3] == ssa.Value(q.Params[2]) {
+					for _, ret := range returnsOf(q) {
+						if retVal(ret, 0) == a[2] {
+							ok = true
+						}
+					}
+				}
+			}
+		}
+		r.Check(ok, p.Pos(q.Pos()), p.FuncName(q), "QueryRule", "applies the given rule to the world's facts and returns exactly what Apply derived", "QueryRule does not return the result of applying the rule to the world's facts")
 	}
 }
